@@ -21,7 +21,9 @@ def load() -> Dict[str, dict]:
     with open(os.path.join(HERE, "variants.json")) as fh:
         data = json.load(fh)
     # changes written by independent sub-agents (see /verif/seeded/*/meta.json): each one is a breaking variant for the claimed
-    # properties it really breaks and a behaviour-preserving variant for all the others
+    # properties it really breaks and a behaviour-preserving variant for all the others ("either" = the property is broken only
+    # as a consequence of a function another property's check is responsible for, or only under threads: a report is accepted,
+    # silence is too)
     seeded = os.path.join(os.path.dirname(HERE), "seeded")
     if os.path.isdir(seeded):
         for name in sorted(os.listdir(seeded)):
@@ -32,7 +34,8 @@ def load() -> Dict[str, dict]:
                 meta = json.load(fh)
             for prop in data:
                 data[prop][f"seeded:{name}"] = {"patch": os.path.join(seeded, name, "patch.diff"),
-                                                "expect": "fire" if prop in meta.get("breaks_claimed_properties", []) else "silent"}
+                                                "expect": "fire" if prop in meta.get("breaks_claimed_properties", []) else
+                                                ("either" if prop in meta.get("may_break_claimed_properties", []) else "silent")}
     return data
 
 
